@@ -83,7 +83,7 @@ REQUIRED = ["alias: re-fetched features compared with the stored text", "alias: 
             "eq: sets in which equal features collapse into one member",
             "eq: ordered pairs", "eq: equal pairs of distinct objects", "eq: equal pairs with different astuple()",
             "eq: unequal pairs with equal astuple()", "set: stored values checked", "set: scalar-set values",
-            "set: tuple-set values", "set: operations while always_return_list=False",
+            "set: tuple-set values", "set: operations while always_return_list=False", "set: features obtained while always_return_list=False",
             "set: one-item views that differ between the settings", "set: multi-item/empty views compared",
             "print: str(feature) compared between the settings", "Attributes invariant evaluations",
             "set: setdefault with a scalar default on a missing key", "set: features obtained from scalar-valued JSON",
@@ -645,7 +645,14 @@ def obtain(case, dbs):
         return Feature(seqid=c[0], source=c[1], featuretype=c[2], start=c[3], end=c[4], score=c[5], strand=c[6], frame=c[7],
                        attributes=M.scalar_json(case["json_base"], case.get("json_style", 0)),
                        dialect=dict(GTF_DIALECT) if case["fmt"] == "gtf" else None)
-    db = gffutils.create_db(line, ":memory:", from_string=True)
+    from gffutils import constants
+    fetching_under = constants.always_return_list
+    # the import itself runs under the default setting unless the case says otherwise (see F-C17-4)
+    constants.always_return_list = bool(case.get("import_switch", True))
+    try:
+        db = gffutils.create_db(line, ":memory:", from_string=True)
+    finally:
+        constants.always_return_list = fetching_under
     dbs.append(db)
     for f in db.all_features():
         if f.source != "gffutils_derived":
@@ -698,10 +705,26 @@ def apply_op(f, op):
 def prepared(ctx, case, dbs):
     """Feature after the case's operations + the model's mapping; None after reporting a violation."""
     try:
-        f = obtain(case, dbs)
+        if case.get("obtain_switch", True):
+            f = obtain(case, dbs)
+        else:
+            # parsed / imported / fetched while always_return_list is False: the switch only changes how one-item lists
+            # are viewed, so what is stored is what the same steps store under the default setting
+            ref = observe(obtain(case, dbs).attributes)
+            with Switch(False):
+                f = obtain(case, dbs)
+            ctx.mon("set: features obtained while always_return_list=False")
+            if case.get("import_switch") is False:
+                ctx.mon("set: databases imported while always_return_list=False")
+            if as_lists(observe(f.attributes)) != as_lists(ref):
+                ctx.violation(case, {"why": "a feature parsed or read while always_return_list was False stores other values than "
+                                            "under the default setting", "origin": case["origin"],
+                                     "stored": as_lists(observe(f.attributes)), "default": as_lists(ref)})
+                return None
         start = observe(f.attributes)
     except Exception as ex:
-        ctx.violation(case, {"why": "obtaining the feature raised %s" % type(ex).__name__, "exception": repr(ex)})
+        ctx.violation(case, {"why": "obtaining the feature raised %s" % type(ex).__name__, "exception": repr(ex),
+                             "always_return_list while obtaining": case.get("obtain_switch", True)})
         return None
     if bad_value(start):
         ctx.violation(case, dict({"why": "freshly obtained feature: " + bad_value(start)}, **bad_detail(start)))
@@ -1435,6 +1458,9 @@ def gen_origin(rng, case, p_db=0.2, p_json=0.16):
         case["json_style"] = rng.randrange(4)
     else:
         case["origin"] = "line"
+    case["obtain_switch"] = rng.random() >= 0.25
+    if not case["obtain_switch"] and case["origin"] in ("db", "jsondb") and rng.random() < 0.3:
+        case["import_switch"] = False       # create_db itself runs while the switch is off
     return case
 
 
@@ -1482,6 +1508,22 @@ def set_nontrivial(case):
     forms = [form for op in case["ops"] if op["how"] != "delete" for _, form in op["items"]]
     return any(f[0] == "scalar" for f in forms) or G.is_rich(text_of_forms([i for op in case["ops"] for i in op["items"]]))
 
+
+# --- known finding F-C17-4 -----------------------------------------------------------
+def classify_import_under_switch(case, detail):
+    """create_db executed while always_return_list is False: the importer reads f.attributes[key] through the
+    switch-dependent view, takes the one-value ID 'g1' for a sequence of two values and refuses it.  Only that refusal,
+    in a case whose import ran with the switch off, is the listed finding; anything else is a violation."""
+    if case.get("import_switch") is not False or case.get("origin") not in ("db", "jsondb"):
+        return False
+    if not str(detail.get("why", "")).startswith("obtaining the feature raised ValueError"):
+        return False
+    return "has more than one value but a single value is required for a primary key" in str(detail.get("exception", ""))
+
+
+KNOWN = {"F-C17-4": classify_import_under_switch}
+CANONICAL = {"F-C17-4": {"kind": "set", "origin": "db", "fmt": "gff3", "base": [["ID", ["g1"]], ["Name", ["n"]]], "ops": [],
+                         "obtain_switch": False, "import_switch": False}}
 
 CANONICAL_PRINT = {"kind": "print", "origin": "line", "fmt": "gff3", "base": [["ID", ["g1"]]],
                    "ops": [{"how": "feature_setitem", "items": [["Note", ["scalar", "scalar"]]], "switch": True}]}
